@@ -3,6 +3,10 @@ package sim
 
 import (
 	"bytes"
+	"encoding/json"
+	"fmt"
+	"runtime/debug"
+	"sort"
 	"io"
 	"net/http"
 	"net/http/httptest"
@@ -168,4 +172,96 @@ func NewServer(main string, opts ...icontext.Option) (*interpreter.Interpreter, 
 	ip := interpreter.New(all...)
 	ip.Debugger = cap
 	return ip, cap
+}
+
+// Observation is what a client of the simulator can see of one request.
+type Observation struct {
+	HTTPStatus int
+	Flows      []string // scope/subroutine (or process-mark name) in order
+	Logs       []string
+	Restarts   int
+	Cached     bool
+	Backend    string
+	Error      string
+	RespStatus int
+	RespBytes  int
+	Headers    map[string]string
+	Panic      string
+}
+
+type processDoc struct {
+	Flows []struct {
+		Subroutine string `json:"subroutine"`
+		Name       string `json:"name"`
+		Scope      string `json:"scope"`
+	} `json:"flows"`
+	Logs []struct {
+		Message string `json:"message"`
+	} `json:"logs"`
+	Restarts int    `json:"restarts"`
+	Backend  string `json:"backend"`
+	Cached   bool   `json:"cached"`
+	Error    string `json:"error"`
+	Client   struct {
+		StatusCode int               `json:"status_code"`
+		BodyBytes  int               `json:"body_bytes"`
+		Headers    map[string]string `json:"headers"`
+	} `json:"client_response"`
+}
+
+// volatile headers never compared
+var volatile = map[string]bool{"date": true, "age": true, "x-timer": true, "fastly-debug-ttl": true}
+
+// Observe runs one request through ServeHTTP and decodes the process document.
+func Observe(ip *interpreter.Interpreter, method, url string, hdr [][2]string) (o Observation) {
+	defer func() {
+		if r := recover(); r != nil {
+			o.Panic = fmt.Sprint(r) + "\n" + string(debug.Stack())
+		}
+	}()
+	st, _, body := Serve(ip, method, url, hdr)
+	o.HTTPStatus = st
+	var d processDoc
+	if err := json.Unmarshal(body, &d); err != nil {
+		o.Error = "non-JSON response: " + strings.TrimSpace(string(body))
+		return o
+	}
+	for _, f := range d.Flows {
+		n := f.Subroutine
+		if n == "" {
+			n = "mark:" + f.Name
+		}
+		o.Flows = append(o.Flows, f.Scope+"/"+n)
+	}
+	for _, l := range d.Logs {
+		o.Logs = append(o.Logs, l.Message)
+	}
+	o.Restarts, o.Backend, o.Cached, o.Error = d.Restarts, d.Backend, d.Cached, d.Error
+	o.RespStatus, o.RespBytes = d.Client.StatusCode, d.Client.BodyBytes
+	o.Headers = map[string]string{}
+	for k, v := range d.Client.Headers {
+		if !volatile[k] {
+			o.Headers[k] = v
+		}
+	}
+	return o
+}
+
+// String renders an observation canonically (sorted headers).
+func (o Observation) String() string {
+	ks := make([]string, 0, len(o.Headers))
+	for k := range o.Headers {
+		ks = append(ks, k)
+	}
+	sort.Strings(ks)
+	var hs []string
+	for _, k := range ks {
+		hs = append(hs, k+"="+o.Headers[k])
+	}
+	p := ""
+	if o.Panic != "" {
+		p = " PANIC"
+	}
+	return fmt.Sprintf("http=%d flows=%v logs=%q restarts=%d cached=%v backend=%s error=%q status=%d bytes=%d headers=%v%s",
+		o.HTTPStatus, o.Flows, o.Logs, o.Restarts, o.Cached, o.Backend, o.Error, o.RespStatus, o.RespBytes, hs, p)
 }
